@@ -659,11 +659,17 @@ func init() {
 				id++
 			}
 		}
+		// the same worlds through real servers (one per world, each with ITS authority and resolver configuration, all
+		// sharing the provider values): an attestation counts only for the server whose authority issued it
+		nsrv, err := serverPass(o, "C04", worlds, func(w *World) bool { return w.ID%3 == 0 || o.tier == "thorough" })
+		if err != nil {
+			return err
+		}
 		dd, dr := disguiseScenarios(o.seed)
 		if err := writeLinkCases(o.out, "C04"); err != nil {
 			return err
 		}
-		return finishWorlds(o, "C04", worlds, labels, st, 16, map[string]any{"direct_violations": dd, "disguised_token_runs": dr,
+		return finishWorlds(o, "C04", worlds, labels, st, 16, map[string]any{"direct_violations": dd, "disguised_token_runs": dr, "worlds_also_run_through_server": nsrv,
 			"direct_oracle": "tokens presented under a link that is not the CID of their bytes (another token's link; raw / CIDv0 / dag-json re-labelling) contribute nothing"})
 	}
 }
@@ -682,7 +688,7 @@ func init() {
 		nbs := []Cav{{}, {Max: i64(3)}, {Tag: strp("x"), Tags: []string{"a"}}, {Link: linkNode(5)}}
 		for depth := 0; depth <= 5; depth++ {
 			for rev := -1; rev <= depth; rev++ { // -1 none; k: token k of the chain (0 = invocation ... depth = root delegation)
-				for alt := 0; alt < 2; alt++ { // a second, unrevoked chain alongside
+				for alt := 0; alt < 3; alt++ { // 1: a second, unrevoked chain alongside; 2: a dead-end twin of the first proof, listed first
 					for _, nb := range nbs {
 						cast := newCast(o.seed*6151 + int64(id))
 						service := cast.Ed("service")
@@ -697,6 +703,17 @@ func init() {
 							inv.Proofs = append(inv.Proofs, ProofRef{Tok: "altroot", Inline: true})
 							specs = append([]*TokSpec{alt}, specs...)
 						} else if alt == 1 {
+							continue
+						} else if alt == 2 && depth >= 1 {
+							// a stranger's delegation of EXACTLY the capability the genuine proof delegates, to the same audience,
+							// cited before it: it leads nowhere; the checker is shown the chain that authorizes
+							inv := specs[len(specs)-1]
+							gen := specs[len(specs)-2]
+							twin := &TokSpec{Name: "deadtwin", Issuer: cast.Ed("stranger"), Audience: gen.Audience, Exp: &far, Nonce: "deadtwin",
+								Caps: append([]CapSpec{}, gen.Caps...)}
+							inv.Proofs = append([]ProofRef{{Tok: "deadtwin", Inline: true}}, inv.Proofs...)
+							specs = append([]*TokSpec{twin}, specs...)
+						} else if alt == 2 {
 							continue
 						}
 						w.Specs = specs
@@ -824,6 +841,28 @@ func init() {
 }
 
 // ---------------------------------------------------------------------------
+// serverPass runs worlds through a real server (options -> context -> Provide -> validator; the provider values are
+// shared by all the servers of the process; servers whose context is the library's defaults are built without options)
+// and writes the batch cases next to the world cases.
+func serverPass(o genOpts, prop string, worlds []*World, keep func(*World) bool) (int, error) {
+	var bcases []string
+	for _, w := range worlds {
+		if keep != nil && !keep(w) {
+			continue
+		}
+		if err := w.Build(); err != nil {
+			return 0, err
+		}
+		b := &Batch{ID: w.ID, W: w, Invs: []string{w.Inv}, Handlers: map[string]string{w.Can: "ok"}}
+		bobs := b.Run(nil)
+		bcases = append(bcases, b.Coq(bobs))
+	}
+	if len(bcases) == 0 {
+		return 0, nil
+	}
+	return len(bcases), writeBatchCases(o.out, "cases_"+prop+"srv", bcases, 8)
+}
+
 // C06: the same world under permutations of every proof list / capability list,
 // with decoys, inline vs resolver-supplied proofs
 
@@ -842,8 +881,16 @@ func permuteWorld(r *rand.Rand, base *World, id int, flipInline bool) *World {
 			r.Shuffle(len(c.Caps), func(i, j int) { c.Caps[i], c.Caps[j] = c.Caps[j], c.Caps[i] })
 		}
 		if flipInline {
+			shallowOf := map[string]bool{}
+			for _, pr := range c.Proofs {
+				if pr.Shallow {
+					shallowOf[pr.Tok] = true
+				}
+			}
 			for i := range c.Proofs {
-				if r.Intn(3) == 0 && c.Proofs[i].Inline {
+				// (a proof that is also cited as a shallow copy stays embedded in full: with only its root block embedded
+				// and the rest behind the resolver the worlds would no longer carry the same delegations)
+				if r.Intn(3) == 0 && c.Proofs[i].Inline && !shallowOf[c.Proofs[i].Tok] {
 					c.Proofs[i].Inline = false
 					w.Ctx.Resolvable[c.Proofs[i].Tok] = true
 				}
